@@ -253,6 +253,7 @@ BOUNDS = {
         "every Python int (unbounded), every float (real-valued model + nan/+-inf), every bool through all five built-in scalars",
         "every str of exactly 0..3 code points through all five built-in scalars (oracle: Python int()/float())",
         "13 other values (bytes, list, dict, tuple, None, object with __str__, int/float/str subclasses, object, set)",
+        "numeric text m e[+-]NNN, m.m E[+-]NNN and m followed by 0..399 zeros (NNN 0..399, optionally blank-padded) through Int and Float (all string-accepting scalars in thorough)",
         "4 generated enums (colliding 1/True/1.0, unhashable values, missing values, name/value crossings) x 7 output value kinds (ints -1..3, 9 strings)",
         "the same through execute_sync on a query selecting one field of each leaf type and a list of Float",
         "E2 (see C16_numeric): IEEE-754 double / 72-bit integer exactness of the numeric kernels",
@@ -264,6 +265,37 @@ ASSUMPTIONS = [
     "CrossHair models finite floats as reals: rounding behaviour is claimed only by the E2 obligations",
     "custom scalars and __str__ methods with side effects are outside the claim",
 ]
+
+
+def _numeric_text(form, m, e, neg, eneg, pad, t) -> bool:
+    sign = "-" if neg else ""
+    if form == 0:
+        text = sign + str(m) + "e" + ("-" if eneg else "") + str(e)
+    elif form == 1:
+        text = sign + str(m) + "." + str(m) + "E" + ("-" if eneg else "+") + str(e)
+    else:
+        text = sign + str(m) + "0" * e
+    if pad:
+        text = " " + text + " "
+    ty = SCALARS[t]
+    if ty is GraphQLInt:
+        return check_output(ty, text, lambda r: _py_int(text) == r)
+    if ty is GraphQLFloat:
+        return check_output(ty, text, lambda r: _py_float(text) == r)
+    if ty is GraphQLBoolean:
+        return check_output(ty, text, lambda r: False)
+    return check_output(ty, text, lambda r: r == text)
+
+
+def numeric_text_domain(mk: int, b: int, c: int, neg: bool, eneg: bool, pad: bool, *, t: int, form: int, a: int) -> bool:
+    """Numeric-looking text a resolver may return: m e[+-]NNN, m.m E[+-]NNN and m followed by
+    0..399 zeros (optionally padded with blanks): the emitted value stays in the domain -- a
+    *finite* Float, a 32-bit Int -- or a field error is raised."""
+    from vf import concrete
+
+    m = [1, 5, 9][forked(mk, 0, 3)]
+    e = 100 * a + 10 * forked(b, 0, 10) + forked(c, 0, 10)
+    return verdict(concrete(_numeric_text, form, m, e, True if neg else False, True if eneg else False, True if pad else False, t))
 
 
 def obligations(tier):
@@ -278,6 +310,10 @@ def obligations(tier):
         for n in range(0, (4 if th else 3) + 1):
             hard = t in (0, 1) and n >= 1  # int()/float() of symbolic text: enumerative model
             obs.append(dict(fn="serialize_str_value", cell=dict(t=t, length=n), budget_s=B if (th or not hard) else 40, expect_confirm=not hard))
+    for t in ((0, 1, 2, 4) if th else (0, 1)):
+        for form in (0, 1, 2):
+            for a in (0, 1, 2, 3):
+                obs.append(dict(fn="numeric_text_domain", cell=dict(t=t, form=form, a=a), budget_s=600 if th else 40, expect_confirm=th))
     for e in range(len(ENUMS)):
         obs.append(dict(fn="enum_output", cell=dict(e=e), budget_s=B))
     obs.append(dict(fn="through_executor", cell={}, budget_s=B * 2))
@@ -298,6 +334,11 @@ def corpus():
         yield "serialize_str_value", dict(t=t, length=3), dict(s="1e3")
         yield "serialize_str_value", dict(t=t, length=3), dict(s="inf")
         yield "other_kinds", dict(t=t), dict(k=5)
+    for t in (0, 1):
+        for form in (0, 1, 2):
+            yield "numeric_text_domain", dict(t=t, form=form, a=3), dict(mk=2, b=0, c=9, neg=False, eneg=False, pad=False)
+            yield "numeric_text_domain", dict(t=t, form=form, a=3), dict(mk=0, b=1, c=0, neg=True, eneg=False, pad=True)
+            yield "numeric_text_domain", dict(t=t, form=form, a=0), dict(mk=1, b=0, c=2, neg=False, eneg=True, pad=False)
     for e in range(len(ENUMS)):
         yield "enum_output", dict(e=e), dict(kind=0, iv=1, si=1)
         yield "enum_output", dict(e=e), dict(kind=1, iv=1, si=2)
